@@ -184,7 +184,7 @@ static void run_converter(Kind k, int L, int M, const std::vector<double>& h, co
             if (long(y.size()) != long(len) * Li / Md) { out.fail("C08:frame-length", js); ok = false; }
             if (obj2) {
                 const arr_real y2 = obj2->process(fr);
-                if (y2.size() != y.size() || std::memcmp(y2.data(), y.data(), sizeof(double) * size_t(y.size())) != 0) {
+                if (y2.size() != y.size() || (y.size() > 0 && std::memcmp(y2.data(), y.data(), sizeof(double) * size_t(y.size())) != 0)) {
                     out.fail("C08:default-design-differs", js);
                     ok = false;
                 }
@@ -391,7 +391,7 @@ static void case_resample_exact(int p, int q, const std::vector<double>& h, cons
     if (dflt) {
         arr_real y0;
         try { y0 = resample(xa, p, q); } catch (const std::exception&) { out.fail("C08:resample-throws", js); return; }
-        if (y0.size() != y.size() || std::memcmp(y0.data(), y.data(), sizeof(double) * size_t(y.size())) != 0) { out.fail("C08:resample-default-design-differs", js); return; }
+        if (y0.size() != y.size() || (y.size() > 0 && std::memcmp(y0.data(), y.data(), sizeof(double) * size_t(y.size())) != 0)) { out.fail("C08:resample-default-design-differs", js); return; }
     }
     if (pr == qr) {
         if (vec(y) != x) out.fail("C08:resample-identity", js);
@@ -516,8 +516,8 @@ int main(int argc, char** argv) {
 
     // ---- the converters: all reduced L/M in 1..16 (both tiers; quick with fewer repetitions)
     const int reps = a.thorough ? 72 : 12;
-    g_corr_reps = a.thorough ? 12 : 6;
-    const size_t budget = a.thorough ? 5000 : 2500;
+    g_corr_reps = a.thorough ? 10 : 6;
+    const size_t budget = a.thorough ? 4000 : 2500;
     for (int L = 1; L <= NMAX; ++L)
         for (int M = 1; M <= NMAX; ++M) {
             const bool reduced = std::gcd(L, M) == 1;
